@@ -40,6 +40,11 @@ def _apply_rewrites(text, rewrites, log, where):
                               % (rule, pat, n, where, min_count))
         if n:
             log.append({"rule": rule, "site": where, "pattern": pat, "replacement": repl, "count": n})
+        elif rule in ("C1", "X3s", "X13", "X12"):
+            # an OPTIONAL contract-carrying rewrite found nothing to attach to: like a lost ghost-hint anchor (rule A0), the
+            # function is verified without it; a failure then counts as a violation only if a failing input is found
+            log.append({"rule": "A0", "site": where, "pattern": pat, "replacement": "(optional rewrite %s matched nothing)" % rule,
+                        "count": 0, "anchor_lost": True})
         text = new
     return text
 
@@ -140,8 +145,9 @@ def _transform_fn(item, spec, log, where):
                 log.append({"rule": "B1", "site": where, "pattern": pat, "replacement": "%s = %s" % (key, bm.group(1)), "count": 1})
         elif default is not None:
             binds[key] = default
-            log.append({"rule": "A0", "site": where, "pattern": pat, "replacement": "(local not found: %s assumed)" % default,
-                        "count": 0, "anchor_lost": True})
+            if not re.search(r"\b(let|for)\s+(mut\s+)?%s\b|[(|,]\s*%s\s*[),|:]" % (re.escape(default), re.escape(default)), body):
+                log.append({"rule": "A0", "site": where, "pattern": pat, "replacement": "(local not found: %s assumed)" % default,
+                            "count": 0, "anchor_lost": True})
     if binds:
         def _sub(t):
             if isinstance(t, str):
@@ -277,6 +283,52 @@ def _instantiate_macro(src, it, log, where):
     return rsitems.strip_attrs_and_docs(text)
 
 
+def _auto_pure_fns(snapshot, it, unit, log):
+    """Rule P1: free helper predicates `fn NAME(c: char) -> bool { EXPR }` of the file that the unit does not list itself
+    (a maintainer may extract one at any time) are taken over with the mechanical contract `ensures r == NAME_spec(c)`, where
+    NAME_spec is the same expression as a spec function (calls of other predicates replaced by their spec counterparts).
+    Only single-expression bodies qualify; anything else is left out (the front end then reports the unresolved name: exit 2)."""
+    path = os.path.join(snapshot, it["file"])
+    if not os.path.exists(path):
+        return ""
+    src = open(path).read()
+    masked = rsitems.mask(src)
+    listed = set()
+    for other in unit["items"]:
+        if other.get("kind") == "fn":
+            listed.add(other["name"])
+    spec_of = dict(it.get("spec_names", {}))
+    found = []
+    for m in re.finditer(r"(?m)^(?:pub(?:\([a-z]+\))? )?fn (\w+)\((\w+): char\) -> bool\s*\{", masked):
+        name, par = m.group(1), m.group(2)
+        if name in listed or rsitems.depth_at(masked, m.start()) != 0:
+            continue
+        open_pos = masked.index("{", m.start())
+        close_pos = rsitems.match_brace(masked, open_pos)
+        body = rsitems.strip_attrs_and_docs(src[open_pos + 1:close_pos]).strip()
+        mb = rsitems.mask(body)
+        if ";" in mb or re.search(r"\b(let|loop|while|for|return)\b", mb):
+            continue
+        found.append((name, par, body))
+        spec_of[name] = name + "_spec"
+    out = []
+    for name, par, body in found:
+        spec_body = body
+        for ex, sp in spec_of.items():
+            spec_body = re.sub(r"\b%s\(" % re.escape(ex), sp + "(", spec_body)
+        if any(re.search(r"\b%s\(" % re.escape(ex), spec_body) for ex in listed):
+            # calls an exec fn of the unit that has no spec counterpart here: taken over without a contract
+            out.append("pub fn %s(%s: char) -> (r: bool)\n{ %s }\n" % (name, par, body))
+            log.append({"rule": "P1", "site": "%s::%s" % (it["file"], name), "pattern": "fn %s(%s: char) -> bool { EXPR }" % (name, par),
+                        "replacement": "(no contract: calls an exec predicate without spec counterpart)", "count": 1})
+            continue
+        out.append("pub open spec fn %s_spec(%s: char) -> bool { %s }\npub fn %s(%s: char) -> (r: bool)\n    ensures r == %s_spec(%s),\n{ %s }\n"
+                   % (name, par, spec_body, name, par, name, par, body))
+        log.append({"rule": "P1", "site": "%s::%s" % (it["file"], name), "pattern": "fn %s(%s: char) -> bool { EXPR }" % (name, par),
+                    "replacement": "ensures r == %s_spec(%s)" % (name, par), "count": 1})
+    return "\n".join(out)
+
+
 def _extract_item(snapshot, it, log):
     path = os.path.join(snapshot, it["file"])
     if not os.path.exists(path):
@@ -371,6 +423,11 @@ def build_unit(snapshot, unit):
     for it in unit["items"]:
         if it["kind"] == "raw":
             chunks.append(("raw", it["text"], None))
+            continue
+        if it["kind"] == "auto_pure_fns":
+            text = _auto_pure_fns(snapshot, it, unit, log)
+            if text:
+                chunks.append(("auto pure helper fns of %s" % it["file"], text, "%s:0" % it["file"]))
             continue
         text, line = _extract_item(snapshot, it, log)
         text = _widen_visibility(text, log, "%s::%s" % (it["file"], it.get("name") or it.get("impl")))
